@@ -101,6 +101,24 @@ def strIndex : Str → Str → Nat → Int
   | [], sub, i => if sub.isEmpty then i else -1
   | c :: rest, sub, i => if isPrefix sub (c :: rest) then i else strIndex rest sub (i + 1)
 
+/-- `strings.Split` for a non-empty separator (genSplit): cut at the leftmost occurrence, go on behind it;
+`cur` holds the characters of the current piece, last first -/
+def splitSep (sep : Str) : Str → Str → List Str
+  | [], cur => [cur.reverse]
+  | c :: rest, cur =>
+    if isPrefix sep (c :: rest) then cur.reverse :: splitSep sep (rest.drop (sep.length - 1)) []
+    else splitSep sep rest (c :: cur)
+termination_by s => s.length
+decreasing_by all_goals (simp; try omega)
+
+/-- `split s sep` (strings.Split): an empty separator explodes the string into its code points -/
+def strSplit (s sep : Str) : List Str :=
+  if sep.isEmpty then s.map (fun c => [c]) else splitSep sep s []
+
+/-- `replace s old new` (strings.ReplaceAll): an empty `old` matches before every code point and at the end -/
+def strReplace (s old new : Str) : Str :=
+  if old.isEmpty then new ++ (s.map (fun c => c :: new)).flatten else joinWith new (strSplit s old)
+
 /-- pure string/number builtins that simply forward to a library function -/
 def forward (st : St F) (name : String) (xargs : List (XArg F)) (dflt : XArg F) : Res F (Val F) :=
   let (r, st') := callExt ext st name xargs [dflt]
@@ -231,10 +249,7 @@ def callBuiltin (name : Str) (args : List (Val F)) (st : St F) : Option (Res F (
   | "split" =>
     match args with
     | [.str s, .str sep] =>
-      let (r, st') := callExt ext st "split" [.str s, .str sep] [.strs []]
-      match r with
-      | [.strs l] => let (a, st'') := alloc st' (.arr (l.map Val.str)); .ok (.arr a) st''
-      | _ => .err (.internal "bad oracle answer") st'
+      let (a, st') := alloc st (.arr ((strSplit s sep).map Val.str)); .ok (.arr a) st'
     | _ => gp "split: assertion" st
   | "upper" | "lower" =>
     match args with
@@ -258,7 +273,7 @@ def callBuiltin (name : Str) (args : List (Val F)) (st : St F) : Option (Res F (
     | _ => gp "trim: assertion" st
   | "replace" =>
     match args with
-    | [.str s, .str o, .str n] => forward ext st nm [.str s, .str o, .str n] (.str [])
+    | [.str s, .str o, .str n] => .ok (.str (strReplace s o n)) st
     | _ => gp "replace: assertion" st
   | "repr" =>
     match reprList ops ext st.heap (auxFuel st) args with
